@@ -626,7 +626,8 @@ class MarkdownNormalizer(Renderer):
             None,
         )
         if label is not None:
-            if label == link_text:
+            # A line break or run of spaces inside the link text is layout, not part of the label.
+            if label == " ".join(link_text.split()):
                 return f"[{label}]"
             return f"[{link_text}][{label}]"
         title = f" {link_title}" if link_title is not None else ""
